@@ -8,9 +8,6 @@ set_option linter.unusedVariables false
 
 namespace WaitN
 
-theorem qi_setF3 {s : State} {b : Bool} (h : QI s) : QI { s with f3 := b } :=
-  qi_transfer h rfl rfl rfl (fun _ => rfl) h.q6 h.q11
-
 /-- the dequeue marks after the call on record j is over -/
 theorem dq_after {s : State} {t : Tid} {j : Nat} {r : Rid} {f : Rid → Rec} (hnd : (s.fr t).recs.Nodup)
     (hri : (s.fr t).recs[j]? = some r)
@@ -28,7 +25,7 @@ theorem dq_after {s : State} {t : Tid} {j : Nat} {r : Rid} {f : Rid → Rec} (hn
     omega
 
 theorem qcf_stepDeqCv {s s' : State} {t : Tid} {j : Nat} {st0 : CvDeqSt} {e : Ev} (c : QCtx s t)
-    (hnodup : RecsNodup s) (hf3 : s'.f3 = false)
+    (hnodup : RecsNodup s)
     (hpc : s.pc t = .wDeqCv j st0) (h : stepDeqCv s t j st0 e = .ok s') : QI s' ∧ CF s' t := by
   have hl : LInv (.wDeqCv j st0) (s.fr t) := hpc ▸ c.linv t
   have hc : inCall (s.pc t) = true := by rw [hpc]; rfl
@@ -87,9 +84,8 @@ theorem qcf_stepDeqCv {s s' : State} {t : Tid} {j : Nat} {st0 : CvDeqSt} {e : Ev
       · split at h
         · rename_i hg
           cases h
-          simp only [setPc_f3, Bool.or_eq_false_iff, Bool.not_eq_false'] at hf3
-          have hin : r ∈ (s.obj (.cv cv)).queue := by simpa using hf3.2
-          refine ⟨qi_setPc (qi_setF3 (qi_ownerRemove c.qi (.inl hin))) hw0 rfl hpost hmc, ?_⟩
+          have hin : r ∈ (s.obj (.cv cv)).queue := by simpa using hg.2.2.2.2
+          refine ⟨qi_setPc (qi_ownerRemove c.qi (.inl hin)) hw0 rfl hpost hmc, ?_⟩
           refine cf_noHold c.cf rfl (by simp [holdsAt]) (by simp [enqTrueAt]) (by intro r'' hr''; simp [freshAt] at hr'') ?_
             (by simp [hpc, inCall]) (by simp [hpc, dqIdx]) ?_
           · intro r'' hr''
@@ -99,6 +95,16 @@ theorem qcf_stepDeqCv {s s' : State} {t : Tid} {j : Nat} {st0 : CvDeqSt} {e : Ev
           · intro r''; simp only [setPc_rcd, ownerRemove_rcd]; split
             · rename_i hh; rw [hh]
             · rfl
+        · simp at h
+      · -- not found: release the spinlock and wait for the waker
+        split at h
+        · rename_i hg
+          cases h
+          have hq1 := qi_cvWord (c := cv) (ob := { s.obj (.cv cv) with lock := none, flag := (s.obj (.cv cv)).flag && !(s.obj (.cv cv)).queue.isEmpty })
+            c.qi rfl rfl
+          refine ⟨qi_setPc hq1 hw0 rfl hpost hmc, ?_⟩
+          exact cf_noHold c.cf rfl (by simp [holdsAt]) (by simp [enqTrueAt]) (by intro r'' hr''; simp [freshAt] at hr'')
+            (by intro r'' hr''; simp [clearedAt] at hr'') (by simp [hpc, inCall]) (by simp [hpc, dqIdx]) (fun _ => rfl)
         · simp at h
       · exact qcf_dflt c h
     · -- release
@@ -119,6 +125,30 @@ theorem qcf_stepDeqCv {s s' : State} {t : Tid} {j : Nat} {st0 : CvDeqSt} {e : Ev
           simp only [setRec_fr, setObj_fr, setRec_rcd, setObj_rcd] at hk ⊢
           exact dq_after (f := fun x => if x = r then { s.rcd r with deqd := true } else s.rcd x) (hnodup t) hri hdq0
             (by simp) (fun r'' hne => by simp [hne]) k r' hk
+        · simp at h
+      · exact qcf_dflt c h
+    · -- wspin
+      split at h
+      · split at h
+        · rename_i hg
+          split at h
+          · rename_i h0
+            have hcl : (s.rcd r).waiting = false := by
+              have := hg.2; rw [h0] at this
+              cases hx : (s.rcd r).waiting with
+              | false => rfl
+              | true => rw [hx] at this; simp [b2n] at this
+            have hp5 : ∀ u, s.post u = some r → (wk (s.pc u)).isSome = true := by
+              intro u hu
+              rcases c.qi.q5 u r hu with h1 | ⟨_, _, a3, _, _⟩
+              · exact h1
+              · rw [hobj] at a3; cases a3
+            refine qcf_deqDone (s := s.setRec r _) (qi_setDeqd c.qi hcl hp5) ?_ hw0 hpost hmc hl.2.2.1 hl.1.len h
+            intro k r' hk
+            simp only [setRec_fr, setRec_rcd] at hk ⊢
+            exact dq_after (f := fun x => if x = r then { s.rcd r with deqd := true } else s.rcd x) (hnodup t) hri hdq0
+              (by simp) (fun r'' hne => by simp [hne]) k r' hk
+          · cases h; exact ⟨c.qi, c.cf⟩
         · simp at h
       · exact qcf_dflt c h
   · simp at h
